@@ -40,6 +40,7 @@ def parseOp (pool : List ObjRef) (w : String) : Option Op :=
   | ["pu", k, ls] => do pure (.push (← findObj pool (← k.toNat?)) (← parseLocals ls))
   | ["po", k] => do pure (.pop (← findObj pool (← k.toNat?)))
   | ["ag", n, v] => do pure (.addGlobal (← n.toNat?) (← parseVal v))
+  | ["gd", n, v] => do pure (.gdef (← n.toNat?) (← parseVal v))
   | ["al", n, v] => do pure (.addLocal (← n.toNat?) (← parseVal v))
   | ["lc", d, s] => do pure (.letCs (← d.toNat?) (← s.toNat?))
   | ["lt", d, t] => do pure (.letTok (← d.toNat?) (← t.toNat?))
